@@ -49,9 +49,18 @@ def main():
         name, init, lb, ub, status = betas[ci % len(betas)]
         case = {'levels': list(counts), 'reference': ref_mode, 'beta': name}
         tuples, maps, refs = [], [], []
-        for v, n in zip(VARS, counts):
+        labelling = ('distinct', 'distinct', 'distinct', 'shared', 'merged')[ci % 5]
+        case['labelling'] = labelling
+        for vi, (v, n) in enumerate(zip(VARS, counts)):
             mapping = dict(list(LEVELS[v].items())[:n])
-            cats = list(mapping.values())
+            if labelling == 'shared' and vi >= 1:
+                # the same category labels as the first variable (two yes/no variables...): ONE shift parameter per label, used twice
+                mapping = dict(zip(mapping.keys(), list(LEVELS[VARS[0]].values())[:n]))
+            if labelling == 'merged' and vi == 0 and n >= 3:
+                # two values of the variable in the same category
+                ks = list(mapping.keys())
+                mapping[ks[2]] = mapping[ks[1]]
+            cats = list(dict.fromkeys(mapping.values()))
             ref = {'default': None, 'last': cats[-1], 'second': cats[1]}[ref_mode]
             tuples.append(DiscreteSegmentationTuple(variable=Variable(v) if ci % 2 else v, mapping=dict(mapping), reference=ref))
             maps.append(mapping)
@@ -62,8 +71,9 @@ def main():
         for si, (v, mapping, ref) in enumerate(zip(VARS, maps, refs)):
             for li, (code, cat) in enumerate(mapping.items()):
                 if cat != ref:
-                    shift[(si, code)] = (si + 1) * 10.0 + (li + 1) * 1.25
-                    values[f'{name}_{cat}'] = shift[(si, code)]
+                    # one parameter per category LABEL: a label used twice (shared / merged) denotes the same parameter
+                    values.setdefault(f'{name}_{cat}', (si + 1) * 10.0 + (li + 1) * 1.25)
+                    shift[(si, code)] = values[f'{name}_{cat}']
         combos = list(itertools.product(*[list(m.keys()) for m in maps]))
         cols = {v: [float(c[i]) for c in combos] for i, v in enumerate(VARS[:len(counts)])}
         cols['dummy'] = [0.0] * len(combos)
